@@ -288,6 +288,33 @@ pub fn slice_eq(x: &M, y: &M, v: u8) -> bool {
     }
 }
 
+/// finer slices of the state comparison (all equal <=> `==`): 0 = map clock + sizes; then per key
+/// `k`: entry presence + entry clock, nested clock + nested pending table, and one slice per nested member;
+/// last = pending key removes.
+pub const FINE: u8 = 2 + NK * (2 + NMM);
+pub fn fine_slice_eq(x: &M, y: &M, v: u8) -> bool {
+    if v == 0 {
+        return acc::clock(x) == acc::clock(y) && acc::n_entries(x) == acc::n_entries(y) && acc::deferred(x).len() == acc::deferred(y).len();
+    }
+    if v == FINE - 1 {
+        return acc::deferred(x) == acc::deferred(y);
+    }
+    let per = 2 + NMM;
+    let key = (v - 1) / per;
+    let part = (v - 1) % per;
+    let ex = acc::entry(x, &key);
+    let ey = acc::entry(y, &key);
+    if part == 0 {
+        ex.is_some() == ey.is_some() && ex.map(|e| e.0) == ey.map(|e| e.0)
+    } else if part == 1 {
+        ex.map(|e| (&e.1.clock, &e.1.deferred)) == ey.map(|e| (&e.1.clock, &e.1.deferred))
+            && ex.map(|e| e.1.entries.len()) == ey.map(|e| e.1.entries.len())
+    } else {
+        let m = part - 2;
+        ex.map(|e| e.1.entries.get(&m)) == ey.map(|e| e.1.entries.get(&m))
+    }
+}
+
 //@ harness props=C05,C07,C01 covers=3,4 name=Map<Orswot> reads on SPEC(U,K): get/keys/len/is_empty/iter/values return exactly the keys with a surviving update, their witness clocks as rm context, the knowledge clock as add context, and the surviving members under each key
 #[no_mangle]
 pub fn h_mapo_reads(inp: &Inp) -> u8 {
@@ -359,11 +386,11 @@ pub fn h_mapo_reads(inp: &Inp) -> u8 {
     }
 }
 
-//@ harness props=C05,C01,C08,C16,C20 variants=NK+2 covers=3,4 kf=203 name=Map<Orswot> L_apply(update): applying the next update of any actor to SPEC(U,K) gives SPEC(U,K+e) for every K (pending removes included); validate_op accepts it
+//@ harness props=C05,C01,C08,C16,C20 variants=2+NK*(2+NMM) covers=3,4 kf=203 name=Map<Orswot> L_apply(update): applying the next update of any actor to SPEC(U,K) gives SPEC(U,K+e) for every K (pending removes included); validate_op accepts it
 #[no_mangle]
 pub fn h_mapo_apply_up(inp: &Inp) -> u8 {
     let mut i = In::new(inp);
-    let v = i.variant(NK + 2);
+    let v = i.variant(FINE);
     let u = any_uni(&mut i);
     let k = any_know(&mut i, &u);
     let flip = i.bool();
@@ -378,7 +405,7 @@ pub fn h_mapo_apply_up(inp: &Inp) -> u8 {
     s.apply(op);
     let mut k2 = k.clone();
     k2.seen[a] += 1;
-    if !slice_eq(&s, &spec(&u, &k2, flip), v) {
+    if !fine_slice_eq(&s, &spec(&u, &k2, flip), v) {
         return 0;
     }
     if !valid {
@@ -471,7 +498,7 @@ pub fn h_mapo_dup(inp: &Inp) -> u8 {
     }
 }
 
-//@ disabled-harness (symbolic execution of Map::merge over nested sets exceeds memory, see DESIGN.md) props=C02,C03,C05,C08,C09,C20 variants=NK+2 name=Map<Orswot> L_merge: merge(SPEC(U,K1), SPEC(U,K2)) == SPEC(U,K1 u K2) for all knowledge pairs (pending removes, stale and equal states included)
+//@ disabled-harness (symbolic execution finishes with lazy joins but every z3 query runs out of memory / time even with 2 actors, 1 key, 1 member; DESIGN.md §9) props=C02,C03,C05,C08,C09,C20 variants=NK+2 name=Map<Orswot> L_merge: merge(SPEC(U,K1), SPEC(U,K2)) == SPEC(U,K1 u K2)
 #[no_mangle]
 pub fn h_mapo_merge(inp: &Inp) -> u8 {
     let mut i = In::new(inp);
